@@ -7,7 +7,7 @@ ROOT = os.path.dirname(os.path.dirname(os.path.abspath(__file__)))
 ALL = [json.loads(l)["id"] for l in open(os.path.join(ROOT, "properties.jsonl"))]
 checks = []
 for pid in ALL:
-    if pid not in P.PROPS: continue
+    if pid not in P.PROPS or not P.PROPS[pid].get('ready', True): continue
     c = P.PROPS[pid]
     checks.append({
         "property_id": pid,
@@ -21,7 +21,7 @@ for pid in ALL:
         "technique": c.get("technique", "machine-checked proof in Coq 8.16 (induction/invariants over all histories) + model-vs-implementation correspondence evaluated inside Coq"),
     })
 na = [{"property_id": pid, "reason": P.NOT_YET.get(pid, "no check built yet; the Coq model and theorems for this property are not in the tree at this commit")}
-      for pid in ALL if pid not in P.PROPS]
+      for pid in ALL if pid not in P.PROPS or not P.PROPS[pid].get('ready', True)]
 m = {
     "version": 1,
     "setup_cmd": "./check --setup",
